@@ -103,6 +103,22 @@ def goTrimPrefix (s p : String) : String :=
 def goTrimSuffix (s p : String) : String :=
   if p.toList.isSuffixOf s.toList then String.ofList (s.toList.take (s.toList.length - p.toList.length)) else s
 
+/-! "ascii_strings": a string as its list of characters, byte offsets = character offsets -/
+
+def goIsSpace (c : Char) : Bool :=
+  c == ' ' || c == '\t' || c == '\n' || c == '\r' || c == Char.ofNat 11 || c == Char.ofNat 12
+def goTrimSpace (s : String) : String :=
+  String.ofList ((s.toList.dropWhile goIsSpace).reverse.dropWhile goIsSpace).reverse
+def goToLower (s : String) : String := String.ofList (s.toList.map Char.toLower)
+def goStrLen (s : String) : Int := (s.toList.length : Int)
+/-- Offset of the last element equal to `c`, `-1` when there is none. -/
+def lastIdxL (c : Char) : List Char → Int
+  | [] => -1
+  | x :: xs => if 0 ≤ lastIdxL c xs then lastIdxL c xs + 1 else if x == c then 0 else -1
+def goLastIndexByte (s : String) (b : Int) : Int := lastIdxL (Char.ofNat b.toNat) s.toList
+def goStrSlice? (s : String) (lo hi : Int) : Option String :=
+  if 0 ≤ lo ∧ lo ≤ hi ∧ hi ≤ (s.toList.length : Int) then some (String.ofList ((s.toList.take hi.toNat).drop lo.toNat)) else none
+
 /-- Position-wise search: the text before the first occurrence of `sep` (non-empty) and the rest after it. -/
 def cutList (sep : List Char) : List Char → Option (List Char × List Char)
   | [] => if sep.isEmpty then some ([], []) else none
